@@ -430,7 +430,11 @@ class OutdoorCrops:
                 )
 
             else:
-                crops_produced = np.array(self.NO_RELOCATION_KCALS_GROWN)
+                # land under greenhouses does not also grow outdoor crops
+                crops_produced = np.multiply(
+                    np.array(self.NO_RELOCATION_KCALS_GROWN),
+                    1 - np.array(greenhouse_fraction_area),
+                )
 
         else:
             crops_produced = np.array([0] * self.NMONTHS)
